@@ -1,9 +1,22 @@
-(* Properties/C02.v -- placeholder until Proofs/C02 lands: the finding only. *)
-From Coq Require Import List ZArith.
-From PyTRS Require Import Model.Aliquot Spec.Geometry Spec.C02Spec.
-Import ListNotations.
+(* Properties/C02.v -- statements of property C02 with their proofs by reference. *)
+From PyTRS Require Import Spec.C02Spec Proofs.C02.Main.
 
-Theorem C02_depth0_refuted_compute :
-  parse_comps [CNE] 0%Z (Some 0%Z) false = Some [].
-Proof. vm_compute. reflexivity. Qed.
-Print Assumptions C02_depth0_refuted_compute.
+Theorem C02_tiling : C02_statement.
+Proof. exact C02_tiling_proof. Qed.
+Print Assumptions C02_tiling.
+
+Theorem C02_qq_depth : C02_qq_depth_statement.
+Proof. exact C02_qq_depth_proof. Qed.
+Print Assumptions C02_qq_depth.
+
+Theorem C02_inside : C02_inside_statement.
+Proof. exact C02_inside_proof. Qed.
+Print Assumptions C02_inside.
+
+Theorem C02_disjoint : C02_disjoint_statement.
+Proof. exact C02_disjoint_proof. Qed.
+Print Assumptions C02_disjoint.
+
+Theorem C02_depth0_refuted : C02_depth0_refuted_statement.
+Proof. exact C02_depth0_refuted_proof. Qed.
+Print Assumptions C02_depth0_refuted.
